@@ -40,6 +40,8 @@ def search(pid, obligation, seed, budget_s=None, out_dir=None):
             res['file'] = out
         except Exception as e:
             res['error'] = 'unreadable rt output: %s' % e
+    elif p.returncode == 2 and 'no-scenarios-for-this-property' in p.stdout:
+        pass
     elif p.returncode == 2:
         res['error'] = 'rt runner undecided: ' + (p.stdout.strip().split('\n') or [''])[-1][:300]
     return res
